@@ -32,6 +32,11 @@ def write_inputs(r, n):
         paths.append(path)
         texts.append(open(path, encoding="utf-8").read())
         kinds.append(spec.get("kind"))
+    # the same file may be listed more than once (at the first / last / inner positions)
+    if n >= 2 and r.random() < 0.3:
+        order = [r.randrange(n) for _ in range(r.randint(2, n + 2))]
+        order[r.choice([0, -1])] = order[r.randrange(len(order))]
+        return [paths[i] for i in order], [texts[i] for i in order], [kinds[i] for i in order]
     return paths, texts, kinds
 
 
@@ -47,7 +52,7 @@ def one_case(r, name, n):
     except Exception as e:  # noqa: BLE001
         outsx = rt.sx_impl(False, rt.exc_class(e))
     finally:
-        for p in paths + [out]:
+        for p in set(paths) | {out}:
             if os.path.exists(p):
                 os.unlink(p)
     case = rt.sx_list([rt.sx_str("c17"), rt.sx_str(name), rt.sx_list(rt.sx_str(t) for t in texts), outsx])
